@@ -1797,6 +1797,7 @@ fn gen_c05(o: &mut Out, r: &mut Rng, d: &GDict, tier: &str) {
         m.ops(r, &mut ls);
         o.lines(&ls);
         o.line("ench");
+        o.line("encha");
         for k in 0..n + 2 {
             let reps = if thorough || n < 200 { modes.len() } else { 2 };
             for j in 0..reps {
@@ -1845,6 +1846,7 @@ fn gen_c05(o: &mut Out, r: &mut Rng, d: &GDict, tier: &str) {
         o.line(&format!("senc F{}", 16384 + 7));
         o.line("senc -");
         o.line("ench");
+        o.line("encha");
         for k in [0usize, 16383, 16384, 16385, total - 1, total] {
             o.line(&format!("encw {} {} 0 err", k, [0usize, 16, 1000][k % 3]));
         }
@@ -1875,6 +1877,7 @@ fn gen_c05(o: &mut Out, r: &mut Rng, d: &GDict, tier: &str) {
         let g = d.by_type(T_GROUPED)[0].clone();
         o.line(&format!("add_avp {} {} 64", g.code, vend(g.vendor)));
         o.line("ench");
+        o.line("encha");
         o.line("len");
         for k in [0usize, 19, 20, 27, 28, 29, 35, 40, 100000] {
             o.line(&format!("encw {} {} 0 err", k, k % 3));
@@ -1897,6 +1900,7 @@ fn gen_c05(o: &mut Out, r: &mut Rng, d: &GDict, tier: &str) {
                 m.ops(r, &mut ls);
                 o.lines(&ls);
                 o.line("ench");
+        o.line("encha");
                 o.line("encw 100000 0 0 err");
                 o.line("encw 100000 1 2 zero");
                 // through the stream codec: nothing of an unencodable message may reach the stream
@@ -1934,6 +1938,7 @@ fn gen_c05(o: &mut Out, r: &mut Rng, d: &GDict, tier: &str) {
             o.line(&format!("add_avp {} - 64", 9));
         }
         o.line("ench");
+        o.line("encha");
         o.line("len");
     };
     let m24: usize = 1 << 24;
@@ -3410,7 +3415,8 @@ fn gen_c12(o: &mut Out, r: &mut Rng, d: &GDict, tier: &str, max_corpora: usize) 
                         // (ids of their own, or ids one "tolerant" transformation away from an outstanding one: its octets in the
                         // other order, halves swapped, one bit off, the complement - an unmatched message matches nobody)
                         let o_id = ids[j % ids.len()];
-                        let cand = match j % 6 {
+                        // (the reader stops at the first message that matches nobody: which transformation comes first rotates)
+                        let cand = match (j + 1 + place + fi) % 6 {
                             1 => o_id.swap_bytes(),
                             2 => o_id.rotate_left(16),
                             3 => o_id ^ 0x8000_0000,
